@@ -125,11 +125,11 @@ impl Pipe {
             Finish::Writer { status, .. } => ExpResp { status: vec![*status], delivered_k: Some(k), head: false, interims: 0 },
             Finish::Drop | Finish::Panic => ExpResp { status: vec![500], delivered_k: None, head: is_head, interims: 0 },
             Finish::Upgrade { .. } => ExpResp { status: vec![101], delivered_k: None, head: false, interims: 0 },
-            Finish::WriterNothing => ExpResp { status: vec![], delivered_k: None, head: false, interims: 0 },
+            Finish::WriterNothing | Finish::WriterPanic => ExpResp { status: vec![], delivered_k: None, head: false, interims: 0 },
             Finish::RespondBrokenBody { .. } => ExpResp { status: vec![200], delivered_k: None, head: false, interims: 0 },
         };
         self.exp_delivered.push(ExpDelivered { wire_idx: self.reqs.len() - 1, body: designated, body_length: len });
-        let nothing = plan.finish == Finish::WriterNothing;
+        let nothing = matches!(plan.finish, Finish::WriterNothing | Finish::WriterPanic);
         self.plans.push(plan);
         if !nothing {
             self.exp_responses.push(resp);
@@ -191,9 +191,24 @@ pub fn gen_c02(rng: &mut Rng, caseid: u64, unix: bool, bound_ms: u64) -> Gen {
         // a unique id somewhere in the header list so that deliveries are unambiguous
         let pos = rng.below(a.headers.len() + 1);
         a.headers.insert(pos, ("X-Vid".to_string(), format!(" {:x}-{}", caseid & 0xffff_ffff, i)));
+        // an eighth of the HTTP/1.1 heads carry both framing fields (a chunked body that is empty
+        // plus one or two Content-Length fields, which the receiver has to ignore for framing
+        // but which are part of the header list like any other field)
+        let mut wire_body: Vec<u8> = Vec::new();
+        let both = a.version == (1, 1) && rng.chance(1, 8);
+        if both {
+            a.headers.retain(|(n, _)| !n.eq_ignore_ascii_case("content-length") && !n.eq_ignore_ascii_case("transfer-encoding"));
+            let pos = rng.below(a.headers.len() + 1);
+            a.headers.insert(pos, (case_name(rng, "Transfer-Encoding"), " chunked".to_string()));
+            for _ in 0..rng.range(1, 2) {
+                let pos = rng.below(a.headers.len() + 1);
+                a.headers.insert(pos, (case_name(rng, "Content-Length"), " 5".to_string()));
+            }
+            wire_body = b"0\r\n\r\n".to_vec();
+        }
         let hl = a.head_bytes().len();
         max_head = max_head.max(hl);
-        let mclass = if gen::STD_METHODS.contains(&a.method.as_str()) { "std" } else { "ext" };
+        let mclass = if both { "te+cl" } else if gen::STD_METHODS.contains(&a.method.as_str()) { "std" } else { "ext" };
         sigparts.push(format!(
             "{}|h{}|l{}|v{}",
             mclass,
@@ -210,7 +225,7 @@ pub fn gen_c02(rng: &mut Rng, caseid: u64, unix: bool, bound_ms: u64) -> Gen {
             },
             a.version.1
         ));
-        p.push_valid(&a, &[], Vec::new(), LenExp::Any, ReqPlan::simple(), "valid-head");
+        p.push_valid(&a, &wire_body, Vec::new(), LenExp::Any, ReqPlan::simple(), "valid-head");
     }
     let last_closes = {
         let a = p.reqs.last().unwrap().abs.as_ref().unwrap();
@@ -391,9 +406,10 @@ pub fn gen_c09(rng: &mut Rng, caseid: u64, unix: bool, bound_ms: u64) -> Gen {
         5 => ReadPlan::Upto(if len <= 64 { rng.below(len + 1) } else { rng.below(len) }),
         _ => ReadPlan::ToEof { extra: 0 },
     };
-    let finish = match rng.below(3) {
+    let finish = match rng.below(4) {
         0 => Finish::Respond { status: 200, body_len: 20, declared: true, threshold: None, max_piece: 1000 },
         1 => Finish::Drop,
+        2 => Finish::Panic,
         _ => Finish::Writer { status: 200, body_len: 20, parts: vec![(30, false), (1000, true)], early_drop_sleep_us: 0, vectored: rng.chance(1, 2) },
     };
     // a zero-length read (`read(&mut [])`) somewhere in the middle is an ordinary thing for an
@@ -480,7 +496,14 @@ pub fn gen_c10(rng: &mut Rng, caseid: u64, unix: bool, bound_ms: u64) -> Gen {
         match class {
             0 => {
                 // fewer than three request-line fields
-                let line = if rng.chance(1, 2) { format!("{} {}", method, target) } else { method.to_string() };
+                // (any of the three fields may be the missing one)
+                let line = match rng.below(6) {
+                    0 | 1 => format!("{} {}", method, target),
+                    2 => method.to_string(),
+                    3 => format!("{} HTTP/1.1", method),
+                    4 => format!("{} HTTP/1.1", target),
+                    _ => "HTTP/1.1".to_string(),
+                };
                 class_label = format!("reqline-fields:{}", line.split(' ').count());
                 p.reqs.push(raw_wire(format!("{}\r\nHost: h\r\n\r\n", line).into_bytes(), &class_label));
                 p.exp_responses.push(err_resp(400));
